@@ -264,7 +264,7 @@ pub fn run(ctx: &mut Ctx) {
     let (lim2, lim3) = if ctx.quick() { (160usize, 48usize) } else { (420, 96) };
 
     // exhaustive 2-cut chunkings (3 chunks, empty chunks included when cuts coincide)
-    let n = ctx.n(600, 6_000);
+    let n = ctx.n(600, 15_000);
     ctx.cases("two-cuts", n, |ctx, case, rng| {
         let stream = gen_stream(rng, lim2, lim2, case % 5 == 4);
         let total = stream.bytes.len();
@@ -290,7 +290,7 @@ pub fn run(ctx: &mut Ctx) {
     ctx.exhaustive.insert(format!("all 2-cut chunkings of every generated stream <= {} bytes", lim2), ctx.only.is_none());
 
     // exhaustive 3-cut chunkings for short streams
-    let n = ctx.n(240, 3_000);
+    let n = ctx.n(240, 8_000);
     ctx.cases("three-cuts", n, |ctx, case, rng| {
         let stream = gen_stream(rng, lim3, lim3, case % 5 == 4);
         let total = stream.bytes.len();
@@ -310,7 +310,7 @@ pub fn run(ctx: &mut Ctx) {
     ctx.exhaustive.insert(format!("all 3-cut chunkings of every generated stream <= {} bytes", lim3), ctx.only.is_none());
 
     // random multi-cut chunkings of larger streams, incl. byte-by-byte
-    let n = ctx.n(12_000, 400_000);
+    let n = ctx.n(12_000, 1_500_000);
     ctx.cases("random-cuts", n, |ctx, case, rng| {
         let stream = gen_stream(rng, 3_100, 1_000, case % 6 == 5);
         let total = stream.bytes.len();
